@@ -5,6 +5,7 @@
 import SV.TxCache.SelProofs
 import SV.TxCache.OrderProofs
 import SV.TxCache.EvictInv
+import SV.TxCache.ReachableProofs
 namespace SV.Props.C01
 open SV SV.TxCache
 
@@ -38,5 +39,12 @@ example :
     let s : Session := ⟨fun _ => 0, fun _ => 1000, fun _ => false⟩
     ((selectFromBunches Variant.current s ⟨1000, 10, fun _ => false, 10⟩ bunches).1.map (·.hash)) = [[1], [2], [5]] := by
   decide
+
+/-- END-TO-END: for the pool reached by ANY history of AddTx (with or without eviction) / RemoveTxByHash / Clear, any
+    session, any limits, any sender: the selected nonces are `accountNonce, accountNonce+1, …` in result order -/
+theorem nonce_run_of_every_reachable_pool (U : Bytes → Tx) (cfg : Config) (ops : List Op)
+    (hw : ∀ t, Op.add t ∈ ops → WfTx U t) (s : Session) (q : SelParams) (snd : Bytes) :
+    ∃ k, noncesOf snd (select Variant.current (ops.foldl applyOp (Pool.init cfg)) s q).1 = List.range' (s.nonce snd) k :=
+  reachable_nonce_run U cfg ops hw s q snd
 
 end SV.Props.C01
